@@ -521,6 +521,12 @@ def search(ctx):
             _, q, ev = du.pd_matrix(rng, D, cond, True, 'generic')
             return q, ev
         U, lam = du.stack(one, lead)
+        if rng.random() < 0.25:
+            # overall scale of the covariance: the cACG density is defined for every positive definite B (and is invariant
+            # to its scale); parameters that were not max-normalised (covariance_norm=False, a model built by hand) keep it
+            lg = float(rng.uniform(-14, 6))
+            lam = lam * 10.0 ** lg
+            ctx.count('search-cacg-scale-1e%d' % (5 * int(np.floor(lg / 5))))
         N = int(rng.integers(1, 4))
         ylead = lead if (rng.random() < 0.7 or not lead) else tuple(lead[:-1]) + (1,)
         y = du.observations(rng, ylead, N, D, True, scale=float(np.exp(rng.normal() * 2)))
